@@ -4,6 +4,7 @@ pub mod spec;
 
 pub mod c01;
 pub mod c02;
+pub mod c03;
 pub mod model;
 pub mod c04;
 pub mod c05;
@@ -11,6 +12,7 @@ pub mod c06;
 pub mod c07;
 pub mod c08;
 pub mod c09;
+pub mod c10;
 pub mod c20;
 
 use crate::core::Stats;
@@ -27,12 +29,14 @@ pub fn monitors() -> Vec<Monitor> {
     vec![
         Monitor { id: "C01", case: c01::case, exhaustive: None },
         Monitor { id: "C02", case: c02::case, exhaustive: None },
+        Monitor { id: "C03", case: c03::case, exhaustive: None },
         Monitor { id: "C04", case: c04::case, exhaustive: Some(c04::exhaustive) },
         Monitor { id: "C05", case: c05::case, exhaustive: None },
         Monitor { id: "C06", case: c06::case, exhaustive: None },
         Monitor { id: "C07", case: c07::case, exhaustive: None },
         Monitor { id: "C08", case: c08::case, exhaustive: None },
         Monitor { id: "C09", case: c09::case, exhaustive: None },
+        Monitor { id: "C10", case: c10::case, exhaustive: None },
         Monitor { id: "C20", case: c20::case, exhaustive: Some(c20::exhaustive) },
     ]
 }
